@@ -12,7 +12,7 @@ import (
 )
 
 func gen(r *Rng, tier string, emit Emit) {
-	n := 12
+	n := 7
 	maxCorpus := 2048
 	modelMax := 6000
 	if tier == "thorough" {
